@@ -34,14 +34,15 @@ def variantOf (j : Json) : Except String Variant :=
   match j.getObjVal? "variant" with
   | .error _ => pure repaired
   | .ok v => do
-    pure { d3 := ← (← v.getObjVal? "d3").getBool?, d4 := ← (← v.getObjVal? "d4").getBool?, d20 := ← (← v.getObjVal? "d20").getBool?,
-           d31 := ← (← v.getObjVal? "d31").getBool? }
+    let flag (k : String) : Except String Bool := do (← v.getObjVal? k).getBool?
+    pure { d3 := ← flag "d3", d4 := ← flag "d4", d20 := ← flag "d20", d31 := ← flag "d31", d32 := ← flag "d32",
+           d33 := ← flag "d33" }
 
 def itemJson : Item → Json
   | .cond c => Json.mkObj [("cond", ofStr c)]
   | .blk as => Json.mkObj [("blk", Json.arr (as.map actionJson).toArray)]
 
-/-- `{"m":"c11","op":"table","text":…,"flavor":…,"types":[…],"pdir":null|…[,"variant":{"d3","d4","d20","d31"}]}` →
+/-- `{"m":"c11","op":"table","text":…,"flavor":…,"types":[…],"pdir":null|…[,"variant":{"d3","d4","d20","d31","d32","d33"}]}` →
 the action list of `Table(file, topProduct).actions(flavor, setupType)`;
 `"op":"parse"` → the chains of `_actions`; `"op":"rewrite"` → the lines `_rewrite` returns;
 `"op":"args"` → the argument tokeniser on one argument text.
